@@ -1,8 +1,10 @@
 package c19
 
 import (
+	"encoding/json"
 	"errors"
 	"fmt"
+	"strings"
 	"testing"
 
 	"github.com/llir/llvm/ir"
@@ -59,62 +61,19 @@ func TestWritesInFlightTogether(t *testing.T) {
 			j := i % nmod
 			checkWrite(rt, test, srcs[j], mods[j], wants[j], -1, false)
 		}
-		errFault := errors.New("injected write failure")
-		ws := make([]*hookWriter, nmod)
-		ks := make([]int, nmod)
-		ns := make([]int64, nmod)
-		errs := make([]error, nmod)
-		panics := make([]string, nmod)
-		desc := ""
-		for i := range ws {
-			ks[i] = -1
-			if rapid.IntRange(0, 2).Draw(rt, "fails") == 0 {
-				ks[i] = rapid.IntRange(0, len(wants[i])).Draw(rt, "k")
-			}
-			ws[i] = &hookWriter{faultWriter: faultWriter{failAt: ks[i], recover: rapid.Bool().Draw(rt, "recover"), err: errFault}}
-			ws[i].at = rapid.IntRange(0, 6).Draw(rt, "at")
-			desc += fmt.Sprintf("; module %d: failAt=%d recover=%v, the next module is written inside Write call %d, len(String())=%d\n", i, ks[i], ws[i].recover, ws[i].at, len(wants[i]))
-		}
-		otherGoroutine := rapid.Bool().Draw(rt, "otherGoroutine")
-		desc += fmt.Sprintf("; inner calls on another goroutine: %v\n", otherGoroutine)
-		started := false
-		ran := make([]bool, nmod)
-		var run func(i int)
-		run = func(i int) {
-			ran[i] = true
-			if i+1 < nmod {
-				ws[i].hook = func() {
-					if len(ws[i].buf) > 0 {
-						started = true
-					}
-					if otherGoroutine {
-						done := make(chan struct{})
-						go func() { defer close(done); run(i + 1) }()
-						<-done
-					} else {
-						run(i + 1)
-					}
-				}
-			}
-			if p := lx.Guard(func() { ns[i], errs[i] = mods[i].WriteTo(ws[i]) }); p != nil {
-				panics[i] = p.String()
-			}
-		}
-		run(0)
-		c := desc
+		spec := inflightSpec{OtherGoroutine: rapid.Bool().Draw(rt, "otherGoroutine")}
 		for i := range srcs {
-			c += fmt.Sprintf("; ---- module %d ----\n%s", i, srcs[i])
-		}
-		for i := range ws {
-			if !ran[i] {
-				hx.Hist("inner_call_never_started(outer_writer_saw_fewer_calls)")
-				continue
+			k := -1
+			if rapid.IntRange(0, 2).Draw(rt, "fails") == 0 {
+				k = rapid.IntRange(0, len(wants[i])).Draw(rt, "k")
 			}
-			if panics[i] != "" {
-				hx.Fail(rt, test, "ll", c, "WriteTo of module %d panics while another WriteTo is in flight: %s", i, panics[i])
-			}
-			judge(rt, test, fmt.Sprintf("; judged: module %d of %d WriteTo calls in flight together\n", i, nmod)+c, &ws[i].faultWriter, ns[i], errs[i], wants[i], ks[i])
+			spec.FailAt = append(spec.FailAt, k)
+			spec.Recover = append(spec.Recover, rapid.Bool().Draw(rt, "recover"))
+			spec.At = append(spec.At, rapid.IntRange(0, 6).Draw(rt, "at"))
 		}
+		started, desc := runInFlight(rt, test, srcs, wants, mods, spec)
+		c := desc
+		otherGoroutine := spec.OtherGoroutine
 		if started {
 			hx.NonTrivial(c)
 			hx.Hist("inner_call_started_after_outer_bytes")
@@ -123,5 +82,98 @@ func TestWritesInFlightTogether(t *testing.T) {
 			hx.Hist("inner_call_on_another_goroutine")
 		}
 		hx.SampleCase(test, desc)
+		_ = c
 	})
+}
+
+// inflightSpec is the drawn part of a case; it is the first line of a stored case.
+type inflightSpec struct {
+	FailAt         []int  // per module: offset at which its writer fails (-1: never)
+	Recover        []bool // per module: the writer would accept writes again after its failure
+	At             []int  // per module: the Write call of its writer inside which the next module is written
+	OtherGoroutine bool
+}
+
+const inflightMarker = "\n; ==== verif C19: next module ====\n"
+
+// runInFlight runs the nested WriteTo calls described by spec and judges each of them.
+func runInFlight(t hx.TB, test string, srcs, wants []string, mods []*ir.Module, spec inflightSpec) (started bool, desc string) {
+	nmod := len(mods)
+	errFault := errors.New("injected write failure")
+	ws := make([]*hookWriter, nmod)
+	ks := spec.FailAt
+	ns := make([]int64, nmod)
+	errs := make([]error, nmod)
+	panics := make([]string, nmod)
+	for i := range ws {
+		ws[i] = &hookWriter{faultWriter: faultWriter{failAt: ks[i], recover: spec.Recover[i], err: errFault}}
+		ws[i].at = spec.At[i]
+		desc += fmt.Sprintf("; module %d: failAt=%d recover=%v, the next module is written inside Write call %d, len(String())=%d\n", i, ks[i], ws[i].recover, ws[i].at, len(wants[i]))
+	}
+	otherGoroutine := spec.OtherGoroutine
+	desc += fmt.Sprintf("; inner calls on another goroutine: %v\n", otherGoroutine)
+	ran := make([]bool, nmod)
+	var run func(i int)
+	run = func(i int) {
+		ran[i] = true
+		if i+1 < nmod {
+			ws[i].hook = func() {
+				if len(ws[i].buf) > 0 {
+					started = true
+				}
+				if otherGoroutine {
+					done := make(chan struct{})
+					go func() { defer close(done); run(i + 1) }()
+					<-done
+				} else {
+					run(i + 1)
+				}
+			}
+		}
+		if p := lx.Guard(func() { ns[i], errs[i] = mods[i].WriteTo(ws[i]) }); p != nil {
+			panics[i] = p.String()
+		}
+	}
+	run(0)
+	sj, _ := json.Marshal(spec)
+	c := "; INFLIGHT " + string(sj) + "\n" + desc + strings.Join(srcs, inflightMarker)
+	for i := range ws {
+		if !ran[i] {
+			hx.Hist("inner_call_never_started(outer_writer_saw_fewer_calls)")
+			continue
+		}
+		if panics[i] != "" {
+			hx.Fail(t, test, "ll", c, "WriteTo of module %d panics while another WriteTo is in flight: %s", i, panics[i])
+		}
+		judge(t, test, c, &ws[i].faultWriter, ns[i], errs[i], wants[i], ks[i])
+	}
+	return started, desc
+}
+
+// replayInFlight re-runs a stored case of WritesInFlightTogether (after three completed plain calls, as in the test).
+func replayInFlight(t *testing.T, stored string) {
+	var spec inflightSpec
+	line := stored[len("; INFLIGHT "):strings.IndexByte(stored, '\n')]
+	if err := json.Unmarshal([]byte(line), &spec); err != nil {
+		t.Fatal(err)
+	}
+	body := stored[strings.IndexByte(stored, '\n')+1:]
+	for strings.HasPrefix(body, "; ") {
+		body = body[strings.IndexByte(body, '\n')+1:]
+	}
+	var srcs, wants []string
+	var mods []*ir.Module
+	for _, src := range strings.Split(body, inflightMarker) {
+		m, want := parse(t, src)
+		if m == nil {
+			t.Fatalf("a module of the stored case does not parse")
+		}
+		srcs, wants, mods = append(srcs, src), append(wants, want), append(mods, m)
+	}
+	for rep := 0; rep < 3; rep++ {
+		for j := range mods {
+			checkWrite(t, "Replay", srcs[j], mods[j], wants[j], -1, false)
+		}
+		runInFlight(t, "Replay", srcs, wants, mods, spec)
+	}
 }
